@@ -82,6 +82,26 @@ Proof.
   vm_compute. repeat split; reflexivity.
 Qed.
 
+(* the defect that was repaired, as a witness: with the bookkeeping of the unrepaired code a static obstacle
+   whose shape meets lanelets 1 and 2 and whose centre is in lanelet 1 is registered on lanelet 1 only, the
+   registry is not the inverse of the stored assignment, and removing the obstacle raises KeyError *)
+Example C07_unrepaired_static_refuted :
+  let W := {| kind := fun _ => Static; t0 := fun _ => 0; tf := fun _ => None;
+              cin := fun _ _ => [1]; sm := fun _ _ => [1; 2] |} in
+  let s := assign_static_orig W 30 (add_obstacle W 30 init) in
+  ish s 30 = Some [1; 2] /\ sreg s 2 = [] /\ ~ Inverse W s /\ snd (remove_static_orig 30 s) = Raised KeyError.
+Proof.
+  split; [reflexivity|]. split; [reflexivity|]. split; [|reflexivity].
+  intros [H _]. specialize (H 2 30). destruct H as [_ H].
+  assert (X : smem (assign_static_orig
+                      {| kind := fun _ => Static; t0 := fun _ => 0; tf := fun _ => None;
+                         cin := fun _ _ => [1]; sm := fun _ _ => [1; 2] |} 30
+                      (add_obstacle {| kind := fun _ => Static; t0 := fun _ => 0; tf := fun _ => None;
+                                       cin := fun _ _ => [1]; sm := fun _ _ => [1; 2] |} 30 init)) 2 30).
+  { apply H. split; [left; reflexivity | right; left; reflexivity]. }
+  exact X.
+Qed.
+
 Print Assumptions C07_registries_inverse.
 Print Assumptions C07_registries_consistent.
 Print Assumptions C07_stored_is_lookup.
@@ -90,3 +110,4 @@ Print Assumptions C07_assign_all_complete.
 Print Assumptions C07_remove_never_fails.
 Print Assumptions C07_remove_clears.
 Print Assumptions C07_nonvacuous.
+Print Assumptions C07_unrepaired_static_refuted.
